@@ -132,8 +132,6 @@ Section Write.
         if k =? 12 then                                           (* Kind::Merge: inputs on feMergeNode children *)
           XE (Tfe k) [AResult res] (map (fun i => XE TfeMergeNode [AIn 1 i] []) ins)
         else
-          (* feDiffuseLighting (6) and feSpecularLighting (15) are written without their `in` *)
-          let ins := if (k =? 6) || (k =? 15) then [] else ins in
           XE (Tfe k) ((fix go (l : list finput) (j : N) : list aval :=
                          match l with [] => [] | i :: r => AIn j i :: go r (j + 1) end) ins 1
                       ++ href ++ [AResult res]) []
